@@ -55,6 +55,31 @@ Proof.
 Qed.
 Print Assumptions c10_memory_agrees_with_datastore.
 
+(* ... in particular after a call that returned the datastore's error (EFail) as
+   much as after one that returned nil: at every call boundary a gater opened
+   on the datastore gives the same answer to every Intercept* callback and
+   lists the same peers, addresses and subnets as the running one — the
+   clause the monitor checks on the implementation after every event *)
+Theorem c10_reopened_gater_same_answers : forall h, Forall wf_event h ->
+  let st := run init_state h in
+  let re := load_rules (g_ds st) in
+  (forall pr, wf_probe pr -> probe_answer (g_mem st) pr = probe_answer re pr) /\
+  same_rules Z.eqb (list_peers (g_mem st)) (list_peers re) = true /\
+  same_rules addr_same (list_addrs (g_mem st)) (list_addrs re) = true /\
+  same_rules subnet_same (list_subnets (g_mem st)) (list_subnets re) = true.
+Proof.
+  intros h Hw st re. destruct (reopened_same st (Inv_run h init_state Hw Inv_init)) as (H & O1 & O2). fold re in H, O2.
+  split; [intros pr Hp; apply probe_answer_ext; assumption|].
+  unfold same_rules. rewrite !incl_peers, !incl_addrs, !incl_subnets by (try assumption; intros id; apply H).
+  repeat split.
+Qed.
+Print Assumptions c10_reopened_gater_same_answers.
+
+(* a call whose datastore write failed changes neither side *)
+Theorem c10_failed_call_changes_nothing : forall st o, step st (EFail o) = st.
+Proof. reflexivity. Qed.
+Print Assumptions c10_failed_call_changes_nothing.
+
 (* every history, every crash point: a call that returned (EOp) decides its own
    rule; a call interrupted after the datastore write (ECrashAfter) is enforced
    as if it had returned, one interrupted before the write, a failed write and
@@ -139,6 +164,57 @@ Proof.
   - destruct (HS s b H1 H2 H3 H4 H5) as [X Y]. split; [exact X|exact Y].
 Qed.
 Print Assumptions c10_every_address_form_refused.
+
+(* addresses WITHOUT IP component that stand for one: a peer known by
+   /dns4 | /dns6 | /dns names.  Whatever the swarm's resolver answers per name
+   (an error or any list of addresses), in every reachable state: everything
+   InterceptAddrDial is asked about and everything a transport is handed is an
+   IP address the resolution produced (a name whose lookup fails is dropped,
+   never passed on for the transport to look up itself), a transport is only
+   handed — and only connects to — an address that InterceptAddrDial let
+   through, and no transport connection is opened to a blocked address or to
+   an address of a blocked subnet, in either byte form *)
+Theorem c10_names_resolved_before_gating : forall m p l e, In e (rdial m p l) ->
+  match e with
+  | RvPeerDial allow => allow = intercept_peer_dial m p
+  | RvAddrDial oa allow =>
+      exists a, oa = Some a /\ In a (resolve_addrs l) /\ allow = negb (ip_refused m a) /\ peer_blocked m p = false
+  | RvTptDial oa =>
+      exists a, oa = Some a /\ In a (resolve_addrs l) /\ ip_refused m a = false /\ peer_blocked m p = false
+  | RvTptConn a => In a (resolve_addrs l) /\ ip_refused m a = false /\ peer_blocked m p = false
+  end.
+Proof. exact rdial_spec. Qed.
+Print Assumptions c10_names_resolved_before_gating.
+
+Theorem c10_resolution_spec : forall l a, In a (resolve_addrs l) <->
+  exists k, In k l /\ (k = KIp a \/ exists ans, k = KName (Some ans) /\ In a ans).
+Proof. exact resolve_addrs_In. Qed.
+Print Assumptions c10_resolution_spec.
+
+Theorem c10_no_transport_connection_to_blocked_ip : forall h p l b, Forall wf_event h ->
+  let m := g_mem (run init_state h) in
+  ((exists a, model_has m (tid (RAddr a)) /\ norm_ip b = norm_ip a) \/
+   (exists s, wf_snet s /\ snet_key s <> None /\ wf_ip b /\ model_has m (tid (RSubnet s)) /\ contains s b = true)) ->
+  ~ In (RvTptConn b) (rdial m p l) /\ ~ In (RvTptDial (Some b)) (rdial m p l).
+Proof.
+  intros h p l b Hw m Hb.
+  assert (Hok : mem_ok m) by (apply Inv_mem_ok, Inv_run; [exact Hw|apply Inv_init]).
+  assert (Hr : ip_refused m b = true).
+  { destruct Hb as [[a [H1 H2]]|[s (H1 & H2 & H3 & H4 & H5)]].
+    - eapply enforced_addr_refused; eassumption.
+    - eapply enforced_subnet_refused; eassumption. }
+  split; intros H; apply rdial_spec in H.
+  - destruct H as (_ & H & _). congruence.
+  - destruct H as [a (E & _ & H & _)]. inversion E; subst. congruence.
+Qed.
+Print Assumptions c10_no_transport_connection_to_blocked_ip.
+
+(* the resolver-case monitor that judges the implementation accepts the model's
+   events for every call history, every peer and every address list / resolver script *)
+Theorem c10_resolver_monitor_accepts_model : forall h p l, Forall wf_event h -> Forall wf_kaddr l ->
+  monitor_res (mkRcase h p l (rdial (g_mem (run init_state h)) p l)) = [].
+Proof. exact monitor_res_model. Qed.
+Print Assumptions c10_resolver_monitor_accepts_model.
 
 (* ToIP finds the IP exactly in the forms: zone components, then the IP, then anything *)
 Theorem c10_to_ip_forms : forall a b, to_ip a = Some b ->
@@ -276,14 +352,14 @@ Proof. vm_compute. repeat split. Qed.
 (* the monitor rejects a trace in which a blocked peer is let through *)
 Example monitor_rejects_admitted_peer :
   monitor_trace [PPeerDial 1] [] 0
-    [(EOp (Block (RPeer 1)), mkObs 0 [true] [1%Z] [] [])] <> [].
+    [(EOp (Block (RPeer 1)), mkObs 0 [true] [1%Z] [] [] [true] [1%Z] [] [])] <> [].
 Proof. vm_compute. discriminate. Qed.
 
 (* ... and one in which a rule is lost by a restart *)
 Example monitor_rejects_lost_rule :
   monitor_trace [PAccept (Some (IP4 16909060))] [] 0
-    [(EOp (Block (RAddr (IP4 16909060))), mkObs 0 [false] [] [IP16 (mapped 16909060)] []);
-     (EReopen, mkObs 0 [true] [] [] [])] <> [].
+    [(EOp (Block (RAddr (IP4 16909060))), mkObs 0 [false] [] [IP16 (mapped 16909060)] [] [false] [] [IP16 (mapped 16909060)] []);
+     (EReopen, mkObs 0 [true] [] [] [] [true] [] [] [])] <> [].
 Proof. vm_compute. discriminate. Qed.
 
 (* the end-to-end monitor rejects a transport dial to a blocked peer *)
@@ -291,3 +367,44 @@ Example monitor_rejects_dial_to_blocked_peer :
   monitor_e2e (mkE2E false OForceDirect true [EOp (Block (RPeer 1))] 1 [Some (IP4 2130706433)]
                      [PvPeerDial 1 true; PvTransportDial 0] 0 0 []) <> [].
 Proof. vm_compute. discriminate. Qed.
+
+(* the monitor rejects a running gater that disagrees with its datastore after a
+   FAILED call: BlockAddr(1.2.3.4) returned nil, UnblockAddr(1.2.3.4) returned
+   the datastore's error, yet the running gater lets 1.2.3.4 through and no
+   longer lists it, while a gater reopened on the datastore refuses it *)
+Example monitor_rejects_memory_datastore_disagreement :
+  monitor_trace [PAddrDial (Some (IP4 16909060))] [] 0
+    [(EOp (Block (RAddr (IP4 16909060))),
+      mkObs 0 [false] [] [IP16 (mapped 16909060)] [] [false] [] [IP16 (mapped 16909060)] []);
+     (EFail (Unblock (RAddr (IP4 16909060))),
+      mkObs 1 [true] [] [] [] [false] [] [IP16 (mapped 16909060)] [])] = [ERR_PROPERTY; 1; 5; 0]%Z.
+Proof. vm_compute. reflexivity. Qed.
+
+(* ... and accepts the same history when the failed call left both sides alone *)
+Example monitor_accepts_failed_unblock_kept :
+  monitor_trace [PAddrDial (Some (IP4 16909060))] [] 0
+    (model_trace [PAddrDial (Some (IP4 16909060))] init_state
+       [EOp (Block (RAddr (IP4 16909060))); EFail (Unblock (RAddr (IP4 16909060)))]) = [] /\
+  intercept_addr_dial (g_mem (run init_state
+       [EOp (Block (RAddr (IP4 16909060))); EFail (Unblock (RAddr (IP4 16909060)))])) (Some (IP4 16909060)) = false.
+Proof. vm_compute. split; reflexivity. Qed.
+
+(* the resolver-case monitor rejects a connection to a blocked IP reached through a
+   name: 127.0.0.1 blocked, the swarm's lookup of the name failed, the name was
+   handed to the transport, which looked it up itself and connected to 127.0.0.1 *)
+Example monitor_rejects_connection_to_blocked_ip_behind_name :
+  monitor_res (mkRcase [EOp (Block (RAddr (IP4 2130706433)))] 1 [KName None]
+                 [RvPeerDial true; RvAddrDial None true; RvTptDial None; RvTptConn (IP4 2130706433)])
+  = [ERR_PROPERTY; 32; 3]%Z.
+Proof. vm_compute. reflexivity. Qed.
+
+(* reachable, non-trivial resolver case: one name resolves to a blocked and an
+   unblocked address, another fails, a third address is a blocked IP — exactly
+   the unblocked answer is dialed *)
+Example resolver_case_dials_only_unblocked :
+  let m := g_mem (run init_state [EOp (Block (RAddr (IP4 2130706433)))]) in
+  rdial m 1 [KName (Some [IP4 2130706433; IP4 2130706434]); KName None; KIp (IP16 (mapped 2130706433))] =
+  [RvPeerDial true; RvAddrDial (Some (IP4 2130706433)) false;
+   RvAddrDial (Some (IP4 2130706434)) true; RvTptDial (Some (IP4 2130706434)); RvTptConn (IP4 2130706434);
+   RvAddrDial (Some (IP16 (mapped 2130706433))) false].
+Proof. vm_compute. reflexivity. Qed.
